@@ -768,7 +768,7 @@ class SimDevice:
 
 
 ECHO_KINDS = ["last", "first", "cla", "cmd", "header-zero", "truncated", "extended", "empty",
-              "error"]
+              "error", "extended-sw", "padded", "twice"]
 
 
 def echo_answer(apdu, kind):
@@ -795,6 +795,12 @@ def echo_answer(apdu, kind):
         return apdu[:2]
     if kind == "error":
         raise SW(0x6A87)
+    if kind == "extended-sw":
+        return apdu + b"\x90\x00"      # the right bytes, then what looks like a status word
+    if kind == "padded":
+        return apdu + b"\x00" * 80      # the right bytes at the front of a whole buffer
+    if kind == "twice":
+        return apdu + apdu[2:]
     raise ValueError(kind)
 
 
